@@ -637,3 +637,423 @@ Proof.
         { destruct (DOT && is_nil D2) eqn:G; [|reflexivity]. simpl in *. apply Hsd; exact Dd. }
         rewrite Dd'. exact H.
 Qed.
+
+Lemma read_num_dot : forall t n v, read_num (ch_dot :: t) = NOk n v -> 2 <= n.
+Proof.
+  intros t n v H. unfold read_num in H.
+  assert (Bw : based_window (ch_dot :: t) = false) by (destruct t as [|c1 [|c2 t']]; reflexivity).
+  rewrite Bw in H. rewrite read_dec_eq in H.
+  assert (E1 : p_d1 (ch_dot :: t) = []) by reflexivity.
+  assert (E2 : p_dot (ch_dot :: t) = true) by reflexivity.
+  rewrite E1, E2 in H. simpl is_nil in H. simpl andb in H.
+  destruct (is_nil (p_d2 (ch_dot :: t))) eqn:Nn; [discriminate|].
+  unfold dec_result in H. rewrite Nn in H. rewrite andb_false_r in H. simpl andb in H.
+  assert (L : 1 <= List.length (p_d2 (ch_dot :: t))) by (destruct (p_d2 (ch_dot :: t)); [discriminate|simpl; lia]).
+  destruct (exp_match (p_r3 (ch_dot :: t))) as [[[neg es] k]|];
+    apply nres_of_ok in H; destruct H as [-> _]; simpl; lia.
+Qed.
+
+Lemma takew_ge : forall p (a b : text), forallb p a = true ->
+  takew p (a ++ b) = a ++ takew p b.
+Proof.
+  intros p a b; induction a as [|c a IH]; simpl; intro H; [reflexivity|].
+  apply andb_true_iff in H; destruct H as [Hc Ha]. rewrite Hc, (IH Ha). reflexivity.
+Qed.
+
+(* ================================================================== the lexer proper *)
+Section WithClasses.
+  Variables isspace isalpha isnumeric : N -> bool.
+  Variables ctoks atoks : list text.
+  Notation sigc := (sig_char ctoks).
+  Notation rd := (read_token isalpha isnumeric ctoks atoks).
+  Notation tk := (toks isspace isalpha isnumeric ctoks atoks).
+  Notation hit := (entry_hit isalpha atoks).
+  Notation scn := (scan isalpha atoks).
+
+  Hypothesis Hclass : forall c, class_ok_b isspace isalpha isnumeric ctoks c = true.
+  Hypothesis Hne : all_nonempty ctoks = true.
+  Hypothesis Halpha : alpha_consistent ctoks atoks = true.
+
+  (* ---------------------------------------------------------------- class facts *)
+  Lemma cls_ws : forall c, isspace c = true -> sigc c = false /\ isalpha c = false /\ isnumeric c = false.
+  Proof.
+    intros c H. specialize (Hclass c). unfold class_ok_b in Hclass. rewrite H in Hclass.
+    destruct (sigc c), (isalpha c), (isnumeric c); simpl in Hclass; try discriminate. auto.
+  Qed.
+  Lemma cls_letter : forall c, is_letter c = true -> isalpha c = true.
+  Proof.
+    intros c H. specialize (Hclass c). unfold class_ok_b in Hclass. rewrite H in Hclass.
+    destruct (isalpha c); [reflexivity|]. simpl in Hclass. rewrite !andb_false_r in Hclass.
+    rewrite ?andb_false_l in Hclass. discriminate.
+  Qed.
+  Lemma cls_sig_alpha : forall c, sigc c = true -> isalpha c = true -> ident_char c = true.
+  Proof.
+    intros c H1 H2. specialize (Hclass c). unfold class_ok_b in Hclass. rewrite H1, H2 in Hclass.
+    destruct (ident_char c); [reflexivity|]. simpl in Hclass. rewrite !andb_false_r in Hclass.
+    rewrite ?andb_false_l in Hclass. discriminate.
+  Qed.
+  Lemma cls_digit : forall c, is_digit c = true -> isnumeric c = true.
+  Proof.
+    intros c H. specialize (Hclass c). unfold class_ok_b in Hclass. rewrite H in Hclass.
+    destruct (isnumeric c); [reflexivity|]. simpl in Hclass. rewrite !andb_false_r in Hclass.
+    rewrite ?andb_false_l in Hclass. discriminate.
+  Qed.
+  Lemma cls_dot : isnumeric ch_dot = false.
+  Proof.
+    specialize (Hclass ch_dot). unfold class_ok_b in Hclass.
+    destruct (isnumeric ch_dot); [|reflexivity]. simpl in Hclass. rewrite !andb_false_r in Hclass. discriminate.
+  Qed.
+
+  Lemma sig_ident : forall c, ident_char c = true -> sigc c = true.
+  Proof. intros c H; unfold sig_char; rewrite H; rewrite ?orb_true_r; reflexivity. Qed.
+  Lemma sig_tok : forall t c, In t ctoks -> In c t -> sigc c = true.
+  Proof.
+    intros t c Ht Hc. unfold sig_char. apply orb_true_iff; right.
+    apply existsb_exists. exists t; split; [exact Ht|]. apply existsb_exists. exists c; split; [exact Hc|apply N.eqb_refl].
+  Qed.
+  Lemma ws_dead : forall w, isspace w = true -> dead w.
+  Proof.
+    intros w H. destruct (cls_ws _ H) as [S _]. unfold sig_char in S.
+    repeat (apply orb_false_iff in S; destruct S as [S ?]).
+    unfold dead. nb. repeat split; assumption.
+  Qed.
+  Lemma sig_not_ws : forall c, sigc c = true -> isspace c = false.
+  Proof. intros c H; destruct (isspace c) eqn:E; [destruct (cls_ws _ E); congruence|reflexivity]. Qed.
+
+  Lemma tok_nonempty : forall t, In t ctoks -> t <> [].
+  Proof.
+    intros t Ht. unfold all_nonempty in Hne. rewrite forallb_forall in Hne.
+    specialize (Hne _ Ht). destruct t; [discriminate|discriminate].
+  Qed.
+  Lemma tok_alpha : forall t, In t ctoks -> mem t atoks = forallb is_letter t.
+  Proof.
+    intros t Ht. unfold alpha_consistent in Halpha. rewrite forallb_forall in Halpha.
+    specialize (Halpha _ Ht). apply eqb_prop in Halpha. exact Halpha.
+  Qed.
+
+  (* ---------------------------------------------------------------- the constant-token scan *)
+  Lemma scan_some : forall tbl r t, scn tbl r = Some t -> In t tbl /\ hit t r = true.
+  Proof.
+    induction tbl as [|t0 tl IH]; intros r t H; simpl in H; [discriminate|].
+    destruct (hit t0 r) eqn:E.
+    - injection H as <-. split; [left; reflexivity|exact E].
+    - destruct (IH _ _ H) as [A B]. split; [right; exact A|exact B].
+  Qed.
+  Lemma scan_none : forall tbl r, scn tbl r = None -> forall t, In t tbl -> hit t r = false.
+  Proof.
+    induction tbl as [|t0 tl IH]; intros r H t Ht; simpl in *; [contradiction|].
+    destruct (hit t0 r) eqn:E; [discriminate|]. destruct Ht as [<-|Ht]; [exact E|exact (IH _ H _ Ht)].
+  Qed.
+  Lemma hit_starts : forall t r, hit t r = true -> starts_with t r = true.
+  Proof. intros t r H; unfold entry_hit in H; apply andb_true_iff in H; tauto. Qed.
+
+  (* the first hit is the longest hit (C11_longest_const) *)
+  Lemma scan_longest : forall tbl r t, order_ok atoks tbl = true -> scn tbl r = Some t ->
+    forall t', In t' tbl -> hit t' r = true -> List.length t' <= List.length t.
+  Proof.
+    induction tbl as [|t0 tl IH]; intros r t Ho H t' Ht' Hh; simpl in *; [contradiction|].
+    apply andb_true_iff in Ho; destruct Ho as [Ho1 Ho2].
+    destruct (hit t0 r) eqn:E.
+    - injection H as <-. destruct Ht' as [<-|Ht']; [lia|].
+      destruct (le_lt_dec (List.length t') (List.length t0)) as [L|L]; [exact L|exfalso].
+      rewrite forallb_forall in Ho1. specialize (Ho1 _ Ht').
+      pose proof (hit_starts _ _ E) as S0. pose proof (hit_starts _ _ Hh) as S1.
+      apply starts_with_app in S0; destruct S0 as [y0 E0]. apply starts_with_app in S1; destruct S1 as [y1 E1].
+      assert (Ep : exists z, t' = t0 ++ z /\ y0 = z ++ y1).
+      { rewrite E0 in E1. destruct (app_split_le t0 y0 t' y1 E1) as (z & A & B); [lia|]. exists z; auto. }
+      destruct Ep as (z & -> & ->).
+      assert (PP : proper_prefix t0 (t0 ++ z) = true).
+      { unfold proper_prefix. apply andb_true_iff; split; [apply starts_with_app; exists z; reflexivity|].
+        apply Nat.ltb_lt. exact L. }
+      rewrite PP in Ho1. simpl in Ho1. apply andb_true_iff in Ho1. destruct Ho1 as [Hm Hl].
+      destruct z as [|c z]; [rewrite app_nil_r in L; lia|].
+      rewrite app_nth2 in Hl by lia. rewrite Nat.sub_diag in Hl. simpl in Hl.
+      unfold entry_hit in E. rewrite Hm in E. simpl in E.
+      rewrite E0 in E. rewrite skipn_app_exact in E. simpl in E.
+      rewrite (cls_letter _ Hl) in E. simpl in E. rewrite andb_false_r in E. discriminate.
+    - destruct Ht' as [<-|Ht']; [congruence|]. exact (IH _ _ Ho2 H _ Ht' Hh).
+  Qed.
+
+  Lemma starts_with_prefix_ins : forall t a b w x, List.length t <= List.length a ->
+    starts_with t (a ++ w :: x) = starts_with t (a ++ b).
+  Proof.
+    induction t as [|c t IH]; intros a b w x L; simpl; [reflexivity|].
+    destruct a as [|y a]; simpl in *; [lia|]. rewrite (IH a b w x) by lia. reflexivity.
+  Qed.
+  Lemma skipn_short_app : forall k (a b : text), k < List.length a ->
+    exists z r, skipn k (a ++ b) = z :: r ++ b /\ skipn k a = z :: r.
+  Proof.
+    induction k as [|k IH]; intros a b L; destruct a as [|y a]; simpl in *; try lia.
+    - exists y, a; split; reflexivity.
+    - destruct (IH a b) as (z & r & A & B); [lia|]. exists z, r; split; assumption.
+  Qed.
+
+  Lemma hit_ins_true : forall t a b w x, isspace w = true ->
+    hit t (a ++ b) = true -> List.length t <= List.length a -> hit t (a ++ w :: x) = true.
+  Proof.
+    intros t a b w x Hw H L. unfold entry_hit in *. apply andb_true_iff in H; destruct H as [S A].
+    rewrite (starts_with_prefix_ins t a b w x L), S. simpl.
+    destruct (negb (mem t atoks)); [reflexivity|]. simpl in *.
+    destruct (Nat.eq_dec (List.length t) (List.length a)) as [El|Nl].
+    - rewrite El, skipn_app_exact. simpl. destruct (cls_ws _ Hw) as (_ & Al & _). rewrite Al. reflexivity.
+    - destruct (skipn_short_app (List.length t) a b) as (z & r & E1 & _); [lia|].
+      destruct (skipn_short_app (List.length t) a (w :: x)) as (z' & r' & E1' & E2'); [lia|].
+      destruct (skipn_short_app (List.length t) a b) as (z2 & r2 & _ & E2); [lia|].
+      rewrite E2 in E2'. injection E2' as <- <-. rewrite E1'. rewrite E1 in A.
+      destruct (skipn_short_app (List.length t) a b) as (z3 & r3 & E3 & E4); [lia|].
+      rewrite E3 in E1. rewrite E4 in E2. injection E2 as -> ->. injection E1 as -> _. exact A.
+  Qed.
+
+  (* an entry that is not a hit before the insertion can become one only in the situation
+     "an alphabetic token exactly as long as [a], followed in [b] by a letter" *)
+  Lemma hit_ins_false : forall t a b w x, isspace w = true -> In t ctoks ->
+    hit t (a ++ b) = false ->
+    (List.length t = List.length a -> starts_with t a = true -> mem t atoks = true ->
+       next_not_alpha isalpha b = true) ->
+    hit t (a ++ w :: x) = false.
+  Proof.
+    intros t a b w x Hw Ht H Hx. destruct (hit t (a ++ w :: x)) eqn:E; [exfalso|reflexivity].
+    unfold entry_hit in *. apply andb_true_iff in E; destruct E as [S A].
+    destruct (le_lt_dec (List.length t) (List.length a)) as [L|L].
+    - rewrite (starts_with_prefix_ins t a b w x L) in S. rewrite S in H. simpl in H.
+      destruct (mem t atoks) eqn:M; simpl in *; [|discriminate].
+      destruct (Nat.eq_dec (List.length t) (List.length a)) as [El|Nl].
+      + rewrite El, skipn_app_exact in H. rewrite Hx in H; [discriminate|exact El| |reflexivity].
+        apply starts_with_app in S. destruct S as [y Ey]. apply starts_with_app.
+        destruct (app_split_le t y a b (eq_sym Ey)) as (z & Ez & _); [lia|]. exists z; exact Ez.
+      + destruct (skipn_short_app (List.length t) a b) as (z & r & E1 & E2); [lia|].
+        destruct (skipn_short_app (List.length t) a (w :: x)) as (z' & r' & E1' & E2'); [lia|].
+        rewrite E2 in E2'. injection E2' as <- <-. rewrite E1 in H. rewrite E1' in A. simpl in *. congruence.
+    - apply starts_with_app in S. destruct S as [y Ey].
+      destruct (app_split_le a (w :: x) t y Ey) as (z & Ez & Ew); [lia|].
+      destruct z as [|z0 z]; [rewrite app_nil_r in Ez; subst t; lia|]. injection Ew as <- _.
+      assert (Sg : sigc w = true) by (apply (sig_tok t w Ht); rewrite Ez; apply in_or_app; right; left; reflexivity).
+      destruct (cls_ws _ Hw) as [Sf _]. congruence.
+  Qed.
+
+  Lemma all_letters_prefix : forall (t z : text), forallb is_letter (t ++ z) = true -> forallb is_letter t = true.
+  Proof. intros t z H; rewrite forallb_app in H; apply andb_true_iff in H; tauto. Qed.
+
+  Lemma scan_ins_some : forall tbl a b w x t, incl tbl ctoks -> isspace w = true ->
+    scn tbl (a ++ b) = Some t -> List.length t <= List.length a ->
+    scn tbl (a ++ w :: x) = Some t.
+  Proof.
+    induction tbl as [|t0 tl IH]; intros a b w x t Hi Hw H L; simpl in *; [discriminate|].
+    assert (Hi0 : In t0 ctoks) by (apply Hi; left; reflexivity).
+    assert (Hil : incl tl ctoks) by (intros u Hu; apply Hi; right; exact Hu).
+    destruct (hit t0 (a ++ b)) eqn:E.
+    - injection H as <-. rewrite (hit_ins_true t0 a b w x Hw E L). reflexivity.
+    - rewrite (hit_ins_false t0 a b w x Hw Hi0 E); [exact (IH a b w x t Hil Hw H L)|].
+      (* t0 alphabetic, exactly a, followed by a letter: then t, a prefix of t0 made of letters, is blocked too *)
+      intros El S0 M0. exfalso.
+      destruct (scan_some _ _ _ H) as [Ht Hh].
+      assert (Htc : In t ctoks) by (apply Hil; exact Ht).
+      pose proof (hit_starts _ _ Hh) as S1.
+      assert (Ea : t0 = a).
+      { apply starts_with_firstn in S0. rewrite El, firstn_all in S0. symmetry; exact S0. }
+      subst a. apply starts_with_app in S1. destruct S1 as [y Ey].
+      destruct (app_split_le t y t0 b (eq_sym Ey)) as (z & Ez & Eyz); [lia|].
+      rewrite (tok_alpha _ Hi0) in M0. rewrite Ez in M0.
+      assert (Mt : mem t atoks = true) by (rewrite (tok_alpha _ Htc); exact (all_letters_prefix _ _ M0)).
+      destruct z as [|c z].
+      + rewrite app_nil_r in Ez. subst t0. congruence.
+      + unfold entry_hit in Hh. rewrite Mt in Hh. simpl in Hh. apply andb_true_iff in Hh. destruct Hh as [_ Hh].
+        rewrite Ey, skipn_app_exact, Eyz in Hh. simpl in Hh.
+        rewrite forallb_app in M0. apply andb_true_iff in M0. destruct M0 as [_ M0]. simpl in M0.
+        apply andb_true_iff in M0. destruct M0 as [M0 _]. rewrite (cls_letter _ M0) in Hh. discriminate.
+  Qed.
+
+  Lemma scan_ins_none : forall tbl a b w x, incl tbl ctoks -> isspace w = true ->
+    scn tbl (a ++ b) = None ->
+    (forallb is_letter a = true -> next_not_alpha isalpha b = true) ->
+    scn tbl (a ++ w :: x) = None.
+  Proof.
+    induction tbl as [|t0 tl IH]; intros a b w x Hi Hw H Hx; simpl in *; [reflexivity|].
+    assert (Hi0 : In t0 ctoks) by (apply Hi; left; reflexivity).
+    assert (Hil : incl tl ctoks) by (intros u Hu; apply Hi; right; exact Hu).
+    destruct (hit t0 (a ++ b)) eqn:E; [discriminate|].
+    rewrite (hit_ins_false t0 a b w x Hw Hi0 E); [exact (IH a b w x Hil Hw H Hx)|].
+    intros El S0 M0. apply Hx.
+    apply starts_with_firstn in S0. rewrite El, firstn_all in S0. subst a.
+    rewrite (tok_alpha _ Hi0) in M0. exact M0.
+  Qed.
+
+  (* ---------------------------------------------------------------- read_token *)
+  Lemma read_num_first : forall c x n v, read_num (c :: x) = NOk n v -> is_digit c = true \/ c = ch_dot.
+  Proof.
+    intros c x n v H. unfold read_num in H. destruct (based_window (c :: x)) eqn:Bw.
+    - destruct (based_window_inv _ Bw) as (bc & hs & R & E & _). injection E as -> _. left; reflexivity.
+    - destruct (is_digit c) eqn:Dc; [left; reflexivity|right].
+      rewrite read_dec_eq in H.
+      assert (E1 : p_d1 (c :: x) = []) by (unfold p_d1; simpl; rewrite Dc; reflexivity).
+      assert (E2 : p_r1 (c :: x) = c :: x) by (unfold p_r1; simpl; rewrite Dc; reflexivity).
+      destruct (c =? ch_dot)%N eqn:Ed; [apply N.eqb_eq in Ed; exact Ed|exfalso].
+      assert (E3 : p_dot (c :: x) = false) by (unfold p_dot; rewrite E2; simpl; exact Ed).
+      destruct (dec_parts (c :: x)) as (_ & _ & _ & _ & H4). destruct (H4 E3) as [E4 _].
+      rewrite E1, E4 in H. simpl in H. discriminate.
+  Qed.
+
+  Lemma read_token_bounds : forall r tg n v, rd r = RTok tg n v -> 1 <= n <= List.length r.
+  Proof.
+    intros r tg n v H. unfold read_token in H. destruct r as [|c t]; [discriminate|].
+    destruct (c =? ch_quote)%N.
+    { destruct (str_end t) as [k|] eqn:E; [|discriminate]. injection H as <- <- <-.
+      destruct (str_end_closed _ _ E) as (L & _). simpl; lia. }
+    destruct (c =? ch_hash)%N.
+    { destruct (inst_end t) as [k|] eqn:E; [|discriminate]. injection H as <- <- <-.
+      destruct (inst_end_closed _ _ E) as (L & _). simpl; lia. }
+    destruct (num_start isnumeric (c :: t)).
+    { destruct (read_num (c :: t)) eqn:E; [|discriminate]. injection H as <- <- <-.
+      apply read_num_bounds in E. tauto. }
+    destruct (scn ctoks (c :: t)) as [tk0|] eqn:E.
+    - injection H as <- <- <-. destruct (scan_some _ _ _ E) as [A B]. split.
+      + pose proof (tok_nonempty _ A). destruct tk0; [congruence|simpl; lia].
+      + apply starts_with_len. apply hit_starts with (1 := B).
+    - destruct (ident_start c); [|discriminate]. injection H as <- <- <-. split; [lia|].
+      simpl. pose proof (takew_len ident_char t). lia.
+  Qed.
+
+  Lemma read_token_sig : forall c x tg n v, rd (c :: x) = RTok tg n v -> sigc c = true.
+  Proof.
+    intros c x tg n v H. unfold read_token in H.
+    destruct (c =? ch_quote)%N eqn:Eq; [unfold sig_char; rewrite Eq; reflexivity|].
+    destruct (c =? ch_hash)%N eqn:Eh; [unfold sig_char; rewrite Eh; rewrite ?orb_true_r; reflexivity|].
+    destruct (num_start isnumeric (c :: x)).
+    { destruct (read_num (c :: x)) eqn:E; [|discriminate].
+      destruct (read_num_first _ _ _ _ E) as [D| ->]; [apply sig_ident, digit_ident; exact D|reflexivity]. }
+    destruct (scn ctoks (c :: x)) as [tk0|] eqn:E.
+    - destruct (scan_some _ _ _ E) as [A B]. apply hit_starts in B.
+      pose proof (tok_nonempty _ A). destruct tk0 as [|c0 tk1]; [congruence|].
+      simpl in B. apply andb_true_iff in B. destruct B as [B _]. apply N.eqb_eq in B. subst c0.
+      apply (sig_tok _ _ A). left; reflexivity.
+    - destruct (ident_start c) eqn:Ei; [|discriminate]. apply sig_ident, ident_start_char; exact Ei.
+  Qed.
+
+  (* what may follow a token without changing how the token itself is read when a whitespace
+     character is put in between: nothing, or a character that is not "alphabetic but not an
+     identifier character" (é after the identifier "to" would be such a character) *)
+  Definition nxt_ok (b : text) : Prop :=
+    match b with [] => True | c :: _ => isalpha c = true -> ident_char c = true end.
+
+  Lemma firstn_app_le : forall k (a b : text), k <= List.length a -> firstn k (a ++ b) = firstn k a.
+  Proof.
+    intros k a b L. rewrite firstn_app. replace (k - List.length a) with 0 by lia. simpl. apply app_nil_r.
+  Qed.
+
+  Lemma read_token_ins : forall a b w x tg n v, isspace w = true ->
+    rd (a ++ b) = RTok tg n v -> n <= List.length a ->
+    (List.length a = n -> nxt_ok b) ->
+    (tg = TNum -> List.length a = S n -> starts_dot (skipn n a) = true -> starts_dot b = false) ->
+    rd (a ++ w :: x) = RTok tg n v.
+  Proof.
+    intros a b w x tg n v Hw H Hn Hnx Hdd.
+    pose proof (read_token_bounds _ _ _ _ H) as [Hn1 _].
+    pose proof (ws_dead _ Hw) as Hd.
+    destruct a as [|c a1]; [simpl in Hn; lia|]. simpl app in *. unfold read_token in *.
+    destruct (c =? ch_quote)%N.
+    { destruct (str_end (a1 ++ b)) as [k|] eqn:E; [|discriminate]. injection H as <- <- <-.
+      destruct (str_end_closed _ _ E) as (_ & _ & B). simpl in Hn.
+      assert (Lk : S k <= List.length a1) by lia.
+      specialize (B (skipn (S k) a1 ++ w :: x)).
+      rewrite firstn_app_le in B by exact Lk. rewrite app_assoc, firstn_skipn in B. rewrite B.
+      rewrite !firstn_app_le by lia. reflexivity. }
+    destruct (c =? ch_hash)%N.
+    { destruct (inst_end (a1 ++ b)) as [k|] eqn:E; [|discriminate]. injection H as <- <- <-.
+      destruct (inst_end_closed _ _ E) as (_ & _ & _ & B). simpl in Hn.
+      assert (Lk : S k <= List.length a1) by lia.
+      specialize (B (skipn (S k) a1 ++ w :: x)).
+      rewrite firstn_app_le in B by exact Lk. rewrite app_assoc, firstn_skipn in B. rewrite B.
+      rewrite !firstn_app_le by lia. reflexivity. }
+    destruct (num_start isnumeric (c :: a1 ++ b)) eqn:Ns.
+    { destruct (read_num (c :: a1 ++ b)) as [m l|] eqn:E; [|discriminate]. injection H as <- <- <-.
+      assert (Ns' : num_start isnumeric (c :: a1 ++ w :: x) = true).
+      { unfold num_start in *. destruct (isnumeric c) eqn:Nc; [reflexivity|]. simpl in *.
+        destruct (c =? ch_dot)%N eqn:Ed; [|discriminate]. simpl in *.
+        destruct a1 as [|c1 a2]; [|exact Ns].
+        apply N.eqb_eq in Ed; subst c. apply read_num_dot in E. simpl in Hn. lia. }
+      rewrite Ns'.
+      change (c :: a1 ++ w :: x) with ((c :: a1) ++ w :: x).
+      rewrite (read_num_ins (c :: a1) b w x m l Hd E Hn); [reflexivity|].
+      intros A B. apply Hdd; [reflexivity|exact A|exact B]. }
+    assert (Ns' : num_start isnumeric (c :: a1 ++ w :: x) = false).
+    { unfold num_start in *. destruct (isnumeric c) eqn:Nc; [discriminate|]. simpl in *.
+      destruct (c =? ch_dot)%N eqn:Ed; [|reflexivity]. simpl in *.
+      destruct a1 as [|c1 a2]; [|exact Ns]. simpl. destruct (cls_ws _ Hw) as (_ & _ & Nw). exact Nw. }
+    rewrite Ns'.
+    change (c :: a1 ++ b) with ((c :: a1) ++ b) in *. change (c :: a1 ++ w :: x) with ((c :: a1) ++ w :: x).
+    destruct (scn ctoks ((c :: a1) ++ b)) as [tk0|] eqn:E.
+    - injection H as <- <- <-.
+      rewrite (scan_ins_some ctoks (c :: a1) b w x tk0 (incl_refl _) Hw E Hn). reflexivity.
+    - destruct (ident_start c) eqn:Ei; [|discriminate]. injection H as <- <- <-.
+      simpl in Hn.
+      assert (Hl : List.length (takew ident_char (a1 ++ b)) <= List.length a1) by lia.
+      destruct Hd as (Hdi & _).
+      destruct (takew_ins ident_char a1 b w x Hdi Hl) as (E1 & _ & _).
+      rewrite (scan_ins_none ctoks (c :: a1) b w x (incl_refl _) Hw E); [rewrite E1; reflexivity|].
+      intro Hall. simpl in Hall. apply andb_true_iff in Hall. destruct Hall as [_ Hall].
+      assert (Hid : forallb ident_char a1 = true).
+      { rewrite forallb_forall in *. intros z Hz. apply letter_ident. apply Hall; exact Hz. }
+      rewrite (takew_ge ident_char a1 b Hid) in Hl. rewrite app_length in Hl.
+      assert (Et : takew ident_char b = []) by (destruct (takew ident_char b); [reflexivity|simpl in Hl; lia]).
+      destruct b as [|z b']; [reflexivity|]. simpl in Et. destruct (ident_char z) eqn:Iz; [discriminate|].
+      simpl. assert (Hq : nxt_ok (z :: b')).
+      { apply Hnx. rewrite (takew_ge ident_char a1 (z :: b') Hid), app_length. simpl. rewrite Iz. simpl. lia. }
+      simpl in Hq. destruct (isalpha z); [rewrite Hq in Iz by reflexivity; discriminate|reflexivity].
+  Qed.
+
+  (* ---------------------------------------------------------------- lexemes *)
+  Definition lexeme_ok (lex : text) (tg : tag) (v : tval) : Prop :=
+    match tg with
+    | TConst t => lex = t /\ In t ctoks /\ v = VNone
+    | TVar => v = VText lex /\ forallb ident_char lex = true
+              /\ exists c cs, lex = c :: cs /\ ident_start c = true
+    | TStr => exists body, lex = ch_quote :: body ++ [ch_quote] /\ v = VText body
+    | TInst => exists body, lex = ch_hash :: body ++ [ch_hash] /\ v = VText body /\ ~ In ch_hash body
+    | TNum => exists l, v = VLit l /\ read_num lex = NOk (List.length lex) l
+              \/ (exists l, v = VLit l /\ read_num (lex ++ [ch_dot; ch_dot]) = NOk (List.length lex) l)
+    end.
+
+  Lemma firstn_S_nth : forall k (t : text) c, nth_error t k = Some c -> firstn (S k) t = firstn k t ++ [c].
+  Proof.
+    induction k as [|k IH]; intros t c H; destruct t as [|y t]; simpl in *; try discriminate.
+    - injection H as ->; reflexivity.
+    - rewrite (IH _ _ H); reflexivity.
+  Qed.
+
+  Lemma read_token_lexeme_basic : forall r tg n v, rd r = RTok tg n v ->
+    match tg with
+    | TConst t => firstn n r = t /\ In t ctoks /\ v = VNone
+    | TVar => v = VText (firstn n r) /\ forallb ident_char (firstn n r) = true
+              /\ (exists c cs, firstn n r = c :: cs /\ ident_start c = true)
+              /\ hd_fails ident_char (skipn n r)
+    | TStr => exists body, firstn n r = ch_quote :: body ++ [ch_quote] /\ v = VText body
+    | TInst => exists body, firstn n r = ch_hash :: body ++ [ch_hash] /\ v = VText body /\ ~ In ch_hash body
+    | TNum => exists l, v = VLit l /\ read_num r = NOk n l
+    end.
+  Proof.
+    intros r tg n v H. unfold read_token in H. destruct r as [|c t]; [discriminate|].
+    destruct (c =? ch_quote)%N eqn:Eq.
+    { destruct (str_end t) as [k|] eqn:E; [|discriminate]. injection H as <- <- <-.
+      apply N.eqb_eq in Eq; subst c. destruct (str_end_closed _ _ E) as (L & A & _).
+      exists (firstn k t). split; [|reflexivity].
+      replace (k + 2) with (S (S k)) by lia. cbn [firstn]. rewrite (firstn_S_nth _ _ _ A). reflexivity. }
+    destruct (c =? ch_hash)%N eqn:Eh.
+    { destruct (inst_end t) as [k|] eqn:E; [|discriminate]. injection H as <- <- <-.
+      apply N.eqb_eq in Eh; subst c. destruct (inst_end_closed _ _ E) as (L & A & NI & _).
+      exists (firstn k t). split; [|split; [reflexivity|exact NI]].
+      replace (k + 2) with (S (S k)) by lia. cbn [firstn]. rewrite (firstn_S_nth _ _ _ A). reflexivity. }
+    destruct (num_start isnumeric (c :: t)).
+    { destruct (read_num (c :: t)) as [m l|] eqn:E; [|discriminate]. injection H as <- <- <-.
+      exists l; split; reflexivity. }
+    destruct (scn ctoks (c :: t)) as [tk0|] eqn:E.
+    - injection H as <- <- <-. destruct (scan_some _ _ _ E) as [A B].
+      split; [apply starts_with_firstn; apply hit_starts with (1 := B)|]. split; [exact A|reflexivity].
+    - destruct (ident_start c) eqn:Ei; [|discriminate]. injection H as <- <- <-.
+      assert (Ef : firstn (S (List.length (takew ident_char t))) (c :: t) = c :: takew ident_char t).
+      { cbn [firstn]. f_equal. rewrite <- (takew_dropw ident_char t) at 2. apply firstn_app_exact. }
+      rewrite Ef. split; [reflexivity|]. split.
+      + simpl. rewrite (ident_start_char _ Ei). apply takew_all.
+      + split; [exists c, (takew ident_char t); split; [reflexivity|exact Ei]|].
+        cbn [skipn]. rewrite <- dropw_skipn. apply dropw_hd.
+  Qed.
+End WithClasses.
